@@ -494,6 +494,66 @@ fn probe_cancelling_lengths<T: Sc>(rep: &mut Report) {
     rep.count("cancelling_length_probes", 1);
 }
 
+/// C15 / C17: an independent variable without any sample is a given independent variable (a window
+/// that selects nothing); the model then has zero rows, and every guard works as for any other N.
+fn probe_empty_x<T: Sc>(rep: &mut Report) {
+    for bad_len in [0usize, 3] {
+        let x = DVector::<T>::from_vec(vec![]);
+        let built = catch_unwind(AssertUnwindSafe(|| {
+            SeparableModelBuilder::<T>::new(&["a", "b"])
+                .function(&["a"], move |x: &DVector<T>, a: T| DVector::from_element(x.len() + bad_len, a))
+                .partial_deriv("a", |x: &DVector<T>, a: T| x.map(|v| v * a))
+                .function(&["b", "a"], |x: &DVector<T>, b: T, a: T| x.map(|v| v * b + a))
+                .partial_deriv("b", move |x: &DVector<T>, _b: T, _a: T| DVector::from_element(x.len() + bad_len, T::one()))
+                .partial_deriv("a", |x: &DVector<T>, _b: T, _a: T| x.map(|_| T::one()))
+                .independent_variable(x)
+                .initial_parameters(vec![T::one(), T::of64(2.0)])
+                .build()
+        }));
+        let det = |what: &str, got: String| json!({"ctx": "independent variable of length zero", "scalar": T::NAME, "extra_length_of_first_function": bad_len, "what": what, "got": got});
+        let mut m = match built {
+            Ok(Ok(m)) => {
+                rep.ok("C15", 0.0);
+                m
+            }
+            Ok(Err(e)) => {
+                rep.violation("C15", det("a complete, valid specification (the independent variable is given, with no samples) is rejected", format!("{e:?}")));
+                continue;
+            }
+            Err(_) => {
+                rep.violation("C15", det("build() panicked", String::new()));
+                continue;
+            }
+        };
+        let want_err = bad_len != 0;
+        let r = catch_unwind(AssertUnwindSafe(|| m.eval().map(|p| (p.nrows(), p.ncols())).map_err(|e| err_kind(&e))));
+        let ok = match &r {
+            Ok(Ok((0, 2))) => !want_err,
+            Ok(Err(k)) => want_err && *k == "UnexpectedFunctionOutput",
+            _ => false,
+        };
+        rep.check("C17", ok, 0.0, || det("eval(): 0 x M matrix when every function returns one value per sample, an error value otherwise", format!("{r:?}")));
+        // d/da: both functions depend on a (fine); d/db: the derivative of the second function misbehaves when bad_len > 0
+        for (k, bad) in [(0usize, false), (1, want_err)] {
+            let r = catch_unwind(AssertUnwindSafe(|| m.eval_partial_deriv(k).map(|p| (p.nrows(), p.ncols())).map_err(|e| err_kind(&e))));
+            let ok = match &r {
+                Ok(Ok((0, 2))) => !bad,
+                Ok(Err(kind)) => bad && *kind == "UnexpectedFunctionOutput",
+                _ => false,
+            };
+            rep.check("C17", ok, 0.0, || det(&format!("eval_partial_deriv({k})"), format!("{r:?}")));
+        }
+        for k in [2usize, 3, usize::MAX] {
+            let r = catch_unwind(AssertUnwindSafe(|| m.eval_partial_deriv(k).map(|p| (p.nrows(), p.ncols())).map_err(|e| err_kind(&e))));
+            rep.check("C17", matches!(&r, Ok(Err(kind)) if *kind == "DerivativeIndexOutOfBounds"), 0.0, || det(&format!("eval_partial_deriv({k}): index out of range"), format!("{r:?}")));
+        }
+        let before = m.params();
+        let r = catch_unwind(AssertUnwindSafe(|| m.set_params(DVector::from_vec(vec![T::one()])).map_err(|e| err_kind(&e))));
+        rep.check("C17", matches!(&r, Ok(Err(kind)) if *kind == "IncorrectParameterCount") && bits_eq(m.params().as_slice(), before.as_slice()), 0.0, || det("set_params with one value for two parameters", format!("{r:?}")));
+    }
+    rep.count("empty_x_probes", 1);
+}
+
 /// C17: a closure whose output has the wrong length only for SOME parameter values.  After any number
 /// of good evaluations the bad one is still reported as an error value, and the model recovers.
 fn probe_data_dependent_length<T: Sc>(rep: &mut Report) {
@@ -584,6 +644,8 @@ pub fn run(path: &str) -> Report {
     probe_overlap::<f32>(&mut total);
     probe_middle_bad::<f64>(&mut total);
     probe_middle_bad::<f32>(&mut total);
+    probe_empty_x::<f64>(&mut total);
+    probe_empty_x::<f32>(&mut total);
     probe_cancelling_lengths::<f64>(&mut total);
     probe_cancelling_lengths::<f32>(&mut total);
     probe_data_dependent_length::<f64>(&mut total);
